@@ -216,6 +216,11 @@ func (ex *Exec) runRoot() {
 			ex.modActive = true
 		}
 	}
+	if ct != nil && ct.NoSafety {
+		// "option nosafety": index, nil, conversion and library panic conditions are assumed, not proved, in this function
+		ex.opts.Safety = false
+		ex.note("option nosafety: the safety conditions of %s are assumed, not proved", funcKey(fn))
+	}
 	ex.cover(fr, st, "entry", fn.Pos())
 	ex.runBody(fr, st)
 	ex.finishRoot(fr, pre)
